@@ -271,7 +271,14 @@ func viNondetDepDigests() []Digest {
 	n := verifNondetChoice(verifParam("DEPS") + 1)
 	deps := make([]Digest, 0, n)
 	for i := 0; i < n; i++ {
-		deps = append(deps, viB5Digest(verifParam("DEPSYM"), byte(40*i+3)))
+		// a later dependency either has its own concrete tail or shares the tail of the first one: then the two
+		// digests coincide whenever their symbolic leading bytes do (two dependencies with identical content, e.g. a
+		// mirror under another name, have equal digests - the construction lists both)
+		seed := byte(40*i + 3)
+		if i > 0 && verifNondetBool() {
+			seed = 3
+		}
+		deps = append(deps, viB5Digest(verifParam("DEPSYM"), seed))
 	}
 	return deps
 }
@@ -350,7 +357,7 @@ func VerifLemma_C08C_B4Construction() {
 //	mode 1: B = A with the content of one module file changed (any bytes)           => different digests
 //	mode 2: B = A with one module file moved to a different module-file path  => different digests
 //	mode 3: same bucket, one dependency digest changed                        => different digests
-//	mode 4: same bucket, one dependency digest added                          => different digests
+//	mode 4: same bucket, one dependency digest added (possibly equal to one already listed) => different digests
 func VerifLemma_C08D_Sensitivity() {
 	n := verifNondetChoice(verifParam("FILES")) + 1
 	objs := viNondetObjs(n)
@@ -416,7 +423,12 @@ func VerifLemma_C08D_Sensitivity() {
 		depsB[k] = d
 		verifCover("dependency digest changed")
 	case 4:
-		depsB = append(depsB, viB5Digest(verifParam("DEPSYM"), 201))
+		// the added digest may equal one that is already in the list (the dependency list is a multiset)
+		seed := byte(201)
+		if verifNondetBool() {
+			seed = 3
+		}
+		depsB = append(depsB, viB5Digest(verifParam("DEPSYM"), seed))
 		verifCover("dependency digest added")
 	}
 	a, err := getB5DigestForBucketAndDepDigests(ctx, &viBucket{objs: objs, order: viPerm(len(objs))}, deps)
